@@ -6,7 +6,8 @@
    transpiler  bytecode_dev_transpiler/src/lib.rs transpile_file           (transpile)
 
    Files are lists of Unicode scalars; U+0000 is the record separator of the binary format
-   (UTF-8 being a bijection that maps only U+0000 to a zero byte is an assumption, see DESIGN 6). *)
+   (that UTF-8 is a bijection mapping only U+0000 to a zero byte is proved in Codec/Utf8Proofs.v:
+   decode_spec, zero_byte_iff; the byte-level statements are C04_file_roundtrip_bytes etc.). *)
 From MS Require Export Base.Str.
 
 (* ---------------------------------------------------------------- tokenizer: split_string_v2 *)
